@@ -107,7 +107,7 @@ def _pin(k, order=None):
         pass
 
 
-def pmap(fn, items, jobs=None, chunk=8, wall_per_chunk=600, budget_s=None, min_items=0, hard_budget_s=None):
+def pmap(fn, items, jobs=None, chunk=8, wall_per_chunk=600, budget_s=None, min_items=0, hard_budget_s=None, pin=True):
     """Map fn over items in forked workers; results come back in item order.  Worker w handles
     chunks w, w+jobs, w+2*jobs, ... and streams (chunk index, results) to a private file.  A
     dead or hung worker is a harness failure (WorkerDied), never a silent success.  With
@@ -140,14 +140,17 @@ def pmap(fn, items, jobs=None, chunk=8, wall_per_chunk=600, budget_s=None, min_i
     pids = {}
     sys.stdout.flush()
     sys.stderr.flush()
-    order = _cpu_order() if os.environ.get('VERIF_PIN', '1') == '1' else None
+    # (pin=False: workers that start processes of their own - E2's fork servers inherit the
+    # affinity - are better left to the kernel's scheduler, above all on a busy machine)
+    order = _cpu_order() if (pin and os.environ.get('VERIF_PIN', '1') == '1') else None
     try:
         for w in range(jobs):
             pid = os.fork()
             if pid == 0:
                 code = 0
                 try:
-                    _pin(w, order)
+                    if pin:
+                        _pin(w, order)
                     with open(os.path.join(tmpdir, 'w%d' % w), 'wb') as f:
                         for ci in range(w, len(chunks), jobs):
                             if budget_s is not None and time.monotonic() - t0 > budget_s:
